@@ -399,8 +399,8 @@ func c13Run(t *rapid.T) {
 	defer func() { c13Execs += 1 + execsThisCase }()
 	execsThisCase = 0
 
-	sharedHelpers := make([]map[string]interface{}, nprog)
-	sharedRT := make([]*Runtime, nprog)
+	sharedHelpers := map[int]map[string]interface{}{}
+	sharedRT := map[int]*Runtime{}
 	var hist []string
 	var live []*liveTmpl
 	cacheOn := false
@@ -574,6 +574,15 @@ func c13Run(t *rapid.T) {
 				}
 				count("c13_op_reused_nested_data", 1)
 			}
+			if uni(t, "runscript", 12) == 0 {
+				// a script run in between (RunScript binds print/println for the script alone)
+				hist = append(hist, "RunScript(\"let rs = 1\") with a fresh context")
+				func() {
+					defer func() { _ = recover() }()
+					_ = underSim(func() { _ = plush.RunScript("let rs = 1 + 1", plush.NewContext()) })
+				}()
+				count("c13_op_runscript", 1)
+			}
 			if uni(t, "zerovalue", 4) == 0 {
 				// a Template value built by hand (Input is an exported field) parses itself on first use
 				hist = append(hist, fmt.Sprintf("&Template{Input: prog %d} executed 3 times, data %d", i, j))
@@ -617,14 +626,17 @@ func c13Run(t *rapid.T) {
 			hist = append(hist, fmt.Sprintf("BuffaloRenderer(prog %d, data %d) [cache %v]", i, j, cacheOn))
 			if uni(t, "longlivedhelpers", 2) == 0 {
 				// the way buffalo calls it: ONE helpers map for the life of the application, fresh data per request
-				if sharedHelpers[i] == nil {
-					sharedRT[i] = newRT(i, j)
-					sharedHelpers[i] = sharedRT[i].helperData()
+				// (one map per program AND data variant: a variant is a caller, and callers differ in the helpers they
+				// override)
+				hk := i*8 + j
+				if sharedHelpers[hk] == nil {
+					sharedRT[hk] = newRT(i, j)
+					sharedHelpers[hk] = sharedRT[hk].helperData()
 				}
-				rt := sharedRT[i]
-				rt.Variant, rt.Log = j, nil
-				hist[len(hist)-1] += " with the long-lived helpers map of this program"
-				out, err := safeBuffalo(progs[i].text, rt.plainData(), sharedHelpers[i])
+				rt := sharedRT[hk]
+				rt.Log = nil
+				hist[len(hist)-1] += " with the long-lived helpers map of this caller"
+				out, err := safeBuffalo(progs[i].text, rt.plainData(), sharedHelpers[hk])
 				compare(i, j, "BuffaloRenderer", out, err, rt)
 				count("c13_op_buffalo_long_lived_helpers", 1)
 				break
